@@ -19,7 +19,7 @@ From AV Require Import Base.Bytes Base.Outcome Hash.HashModel Spec.SpecOps Spec.
   Tree.CompatTyped Tree.CompatHist1 Tree.CompatHist4 Tree.RangeProofsAttach Tree.RangeProofsAttachCopy
   Tree.Serialize Tree.Files Tree.ProjectCanon Tree.RangeProofsReloadFile Tree.RangeProofsCanon Tree.RangeProofsMoveSame
   Tree.OrdHist Tree.OrdHistReal Tree.OrdFrame Tree.WorldCheck Tree.RangeProofsCheck Tree.RangeProofsApi Tree.RangeProofsApiReal Tree.RangeProofsShortFirst Tree.RangeProofsUnique
-  Tree.Listing Tree.RangeProofsListing Tree.ListingReal.
+  Tree.Listing Tree.RangeProofsListing Tree.ListingReal Tree.RangeProofsListingNamed Tree.ListingHist.
 From AV Require Hash.HashRealElement Hash.HashRealAttr Hash.HashRealEnum.
 From AV Require Xml.Serializer Xml.StrictValidDef Xml.RoundTripFile.
 From AV Require Xml.Parser.
@@ -730,3 +730,66 @@ Theorem C07_version_dependent_named_real :
   is_named_in_version RT (766, 511) 1 = Val false /\ is_named_in_version RT (766, 511) 2 = Val true /\
   is_named RT (766, 511) = Val true.
 Proof. exact version_dependent_named_real. Qed.
+
+(* [U] the NAMED half of the property text: for a name that list_valid_sub_elements reports as named,
+   create_named_sub_element_at succeeds EXACTLY when the name is reported as allowed, the position lies in the reported range
+   and the item name is a valid fresh name (fresh_valid_name: not empty, accepted by the SHORT-NAME specification of the type
+   the name resolves to in the file version, the parent has a path, parent_path/item is not yet an identifiable of the model) *)
+Theorem C07_listing_named_creatable :
+  forall (T : tables), SpecWF T ->
+  forall (check_fn : N -> list N -> res bool) (LATEST : N) (h : id) (n : node) (m v : N) (w : world)
+         (r : list valid_info) (w' : world) (vi : valid_info),
+  named_agree_b T (snd (n_type n)) = true -> In v VERSIONS ->
+  w_nodes w h = Some n -> w_nodes w (w_next w) = None -> w_nodes w (w_next w + 1) = None ->
+  model_of h w = Val (OK m, w) -> min_version LATEST h w = Val (OK v, w) ->
+  list_valid_sub_elements T LATEST h w = Val (OK r, w') -> In vi r -> vi_named vi = true ->
+  exists et ix, find_sub_element T (n_type n) (vi_name vi) v = Val (Some (et, ix)) /\ is_named_in_version T et v = Val true /\
+    forall item pos,
+      (exists c w2, e_create_named_sub_element_at T check_fn LATEST h (vi_name vi) item pos w = Val (OK c, w2)) <->
+      (vi_allowed vi = true /\
+       (exists lo hi, calc_element_insert_range T n (vi_name vi) v w = Val (OK (lo, hi), w) /\ lo <= pos <= hi) /\
+       fresh_valid_name T check_fn n m v et item w).
+Proof. exact listing_named_creatable. Qed.
+
+(* [F+U] the property text over HISTORIES on the real tables, no hypothesis on the file version or the allocation state: in
+   every world reached from the empty world by a history of editing calls whose create_file calls all use one of the 21
+   AUTOSAR versions v, every element that belongs to a file has version v, and for every name list_valid_sub_elements reports:
+   is_named is the named-ness in v of the type the name resolves to; not named: allowed <-> create_sub_element succeeds and
+   create_sub_element_at p succeeds <-> p in the reported range; named: the un-named calls never succeed *)
+Theorem C07_listing_exact_histories_real :
+  forall (tab_el tab_en : nametab) (check_fn : N -> list N -> res bool) (root_attrs : list (N * cdata)) (v : N),
+  In v VERSIONS ->
+  forall (ops : list op) (w : world),
+  single_version v ops = true ->
+  run_ops RT tab_el tab_en check_fn REAL_LATEST root_attrs ops empty_world = Val w ->
+  forall (h : id) (n : node) (vh : N) (w1 : world) (r : list valid_info) (w' : world) (vi : valid_info),
+  w_nodes w h = Some n -> min_version REAL_LATEST h w = Val (OK vh, w1) ->
+  list_valid_sub_elements RT REAL_LATEST h w = Val (OK r, w') -> In vi r ->
+  vh = v /\
+  (exists et ix, find_sub_element RT (n_type n) (vi_name vi) v = Val (Some (et, ix)) /\
+                 is_named_in_version RT et v = Val (vi_named vi)) /\
+  (vi_named vi = false ->
+     (vi_allowed vi = true <-> exists c w2, e_create_sub_element RT REAL_LATEST h (vi_name vi) w = Val (OK c, w2)) /\
+     (forall lo hi w2, calc_element_insert_range RT n (vi_name vi) v w = Val (OK (lo, hi), w2) ->
+        forall pos, (exists c w3, e_create_sub_element_at RT REAL_LATEST h (vi_name vi) pos w = Val (OK c, w3)) <-> lo <= pos <= hi)) /\
+  (vi_named vi = true ->
+     forall pos c w2, e_create_sub_element_at RT REAL_LATEST h (vi_name vi) pos w <> Val (OK c, w2)).
+Proof. exact listing_exact_histories_real. Qed.
+
+(* [F+U] ... and the named half over histories *)
+Theorem C07_listing_named_histories_real :
+  forall (tab_el tab_en : nametab) (check_fn : N -> list N -> res bool) (root_attrs : list (N * cdata)) (v : N),
+  In v VERSIONS ->
+  forall (ops : list op) (w : world),
+  single_version v ops = true ->
+  run_ops RT tab_el tab_en check_fn REAL_LATEST root_attrs ops empty_world = Val w ->
+  forall (h : id) (n : node) (m vh : N) (w1 w2 : world) (r : list valid_info) (w' : world) (vi : valid_info),
+  w_nodes w h = Some n -> model_of h w = Val (OK m, w1) -> min_version REAL_LATEST h w = Val (OK vh, w2) ->
+  list_valid_sub_elements RT REAL_LATEST h w = Val (OK r, w') -> In vi r -> vi_named vi = true ->
+  exists et ix, find_sub_element RT (n_type n) (vi_name vi) v = Val (Some (et, ix)) /\ is_named_in_version RT et v = Val true /\
+    forall item pos,
+      (exists c w3, e_create_named_sub_element_at RT check_fn REAL_LATEST h (vi_name vi) item pos w = Val (OK c, w3)) <->
+      (vi_allowed vi = true /\
+       (exists lo hi, calc_element_insert_range RT n (vi_name vi) v w = Val (OK (lo, hi), w) /\ lo <= pos <= hi) /\
+       fresh_valid_name RT check_fn n m v et item w).
+Proof. exact listing_named_histories_real. Qed.
